@@ -308,4 +308,195 @@ Section BackwardProofs.
       + rewrite map_op_sg by apply clr_grad_only. rewrite add_incs_sg, fold_mat_sg. apply map_op_sg. apply mat_zero_grad_only.
       + unfold step_env. rewrite Ein. reflexivity.
   Qed.
+
+  (* ---------- invariants of the whole sweep ---------- *)
+  Lemma sg_wf (ops ops' : ops_t) : sg ops = sg ops' -> wf_ops ops -> wf_ops ops'.
+  Proof.
+    intros H Hwf k oi E. pose proof (sg_nth ops ops' k H) as Hk. rewrite E in Hk.
+    destruct (nth_error ops k) as [oi0|] eqn:E0; [|contradiction]. destruct Hk as (_ & Ea & _).
+    rewrite <- Ea. eapply Forall_impl; [|exact (Hwf k oi0 E0)]. cbv beta. intros a (Hlt & oa & Eoa & Hv).
+    split; auto. pose proof (sg_nth ops ops' (fst a) H) as Hk'. rewrite Eoa in Hk'.
+    destruct (nth_error ops' (fst a)) as [ob|]; [|contradiction]. exists ob. split; auto. destruct Hk' as (_ & _ & El & _). lia.
+  Qed.
+
+  Lemma bstep_sg k (ops : ops_t) e ops' e' c : wf_ops ops -> bstep F VO k ops e = Some (ops', e', c) -> sg ops' = sg ops.
+  Proof.
+    intros Hwf H. destruct c.
+    - destruct (step_get _ _ _ _ _ Hwf H) as (_ & _ & _ & _ & _ & _ & _ & Hs & _). exact Hs.
+    - destruct (bstep_shape _ _ _ _ _ _ Hwf H) as (cur & _ & [(_ & _ & -> & _)|(Hc & _)]); [reflexivity|discriminate].
+  Qed.
+
+  Lemma sweep_inv (P : nat -> ops_t -> env -> list nat -> Prop) :
+    (forall k ops e bl ops1 e1 c, wf_ops ops -> bstep F VO k ops e = Some (ops1, e1, c) ->
+        P (S k) ops e bl -> P k ops1 e1 (if c then bl ++ [k] else bl)) ->
+    forall k ops e bl ops' e' bl', wf_ops ops -> sweep F VO k ops e bl = Some (ops', e', bl') ->
+      P (S k) ops e bl -> P 0 ops' e' bl'.
+  Proof.
+    intros Hstep. induction k as [|k IH]; intros ops e bl ops' e' bl' Hwf H HP; simpl in H.
+    - destruct (bstep F VO 0 ops e) as [[[ops1 e1] c]|] eqn:Eb; [|discriminate]. injection H as <- <- <-.
+      eapply Hstep; eauto.
+    - destruct (bstep F VO (S k) ops e) as [[[ops1 e1] c]|] eqn:Eb; [|discriminate].
+      eapply IH; [|exact H|eapply Hstep; eauto]. eapply sg_wf; [symmetry; eapply bstep_sg; eauto|exact Hwf].
+  Qed.
+
+  Definition gclear_from (n : nat) (ops : ops_t) : Prop :=
+    forall b s, get_slot_ops ops b = Some s -> n <= fst b -> s_grad s = None.
+  Definition gclean (ops : ops_t) : Prop := forall b s, get_slot_ops ops b = Some s -> s_grad s = None.
+
+  Lemma enabled_false (oi : opinfo) j s : enabled (o_rets oi) = false -> nth_error (o_rets oi) j = Some s -> s_grad s = None.
+  Proof.
+    unfold enabled. intros H Hj. destruct (s_grad s) eqn:E; auto.
+    assert (existsb has_grad (o_rets oi) = true); [|congruence].
+    apply existsb_exists. exists s. split; [eapply nth_error_In; eauto|]. unfold has_grad. rewrite E. reflexivity.
+  Qed.
+
+  Lemma add_all_nil s : add_all [] s = s.
+  Proof. reflexivity. Qed.
+
+  (* sweep: only gradients change (no value, no shape, no structure), parameter values and
+     streams are untouched, and at the end no node gradient is left *)
+  Lemma sweep_clean k (ops : ops_t) e bl ops' e' bl' : wf_ops ops ->
+    sweep F VO k ops e bl = Some (ops', e', bl') -> gclear_from (S k) ops ->
+    sg ops' = sg ops /\ gclean ops' /\ e_pval e' = e_pval e /\ e_pos e' = e_pos e.
+  Proof.
+    intros Hwf H Hc.
+    pose (P := fun (n : nat) (o : ops_t) (e1 : env) (_ : list nat) =>
+                 sg o = sg ops /\ gclear_from n o /\ e_pval e1 = e_pval e /\ e_pos e1 = e_pos e).
+    assert (HP : P 0 ops' e' bl').
+    { eapply (sweep_inv P); [|exact Hwf|exact H|unfold P; auto].
+      clear. intros k ops0 e0 bl ops1 e1 c Hwf Hb (Hs & Hcl & Hp & Hq). unfold P.
+      split; [rewrite (bstep_sg _ _ _ _ _ _ Hwf Hb); exact Hs|].
+      destruct c.
+      - destruct (step_get _ _ _ _ _ Hwf Hb) as (cur & incs & Ecur & Hen & _ & Hget & _ & _ & ->).
+        split; [|split].
+        + intros b s Hb0 Hle. rewrite Hget in Hb0. destruct (get_slot_ops ops0 b) as [s0|] eqn:E0; [|discriminate].
+          injection Hb0 as <-. unfold step_slot. destruct (Nat.eqb_spec k (fst b)) as [Hk|Hk]; [reflexivity|].
+          assert (Hm : mem_addr b (o_args cur) = false).
+          { destruct (mem_addr b (o_args cur)) eqn:Em; auto. apply mem_addr_in in Em.
+            pose proof (Hwf k cur Ecur) as Hf. rewrite Forall_forall in Hf. destruct (Hf b Em). lia. }
+          rewrite Hm, (incs_for_nil _ _ _ Hm). simpl. apply (Hcl b s0 E0). lia.
+        + unfold step_env. destruct (f_inner F (o_op cur)); [destruct (map (grad_or_zero VO) (o_rets cur))|]; exact Hp.
+        + unfold step_env. destruct (f_inner F (o_op cur)); [destruct (map (grad_or_zero VO) (o_rets cur))|]; exact Hq.
+      - destruct (bstep_shape _ _ _ _ _ _ Hwf Hb) as (cur & Ecur & [(_ & Hen & -> & ->)|(Hcc & _)]); [|discriminate].
+        split; [|auto]. intros b s Hb0 Hle. destruct (Nat.eq_dec (fst b) k) as [Hk|Hk].
+        + unfold get_slot_ops in Hb0. rewrite Hk, Ecur in Hb0. eapply enabled_false; eauto.
+        + apply (Hcl b s Hb0). lia. }
+    destruct HP as (A & B & C & D). split; [exact A|]. split; [|auto]. intros b s Hb0. apply (B b s Hb0). lia.
+  Qed.
+
+  (* ---------- backward only ever ADDS to parameter gradients, independently of their content ---------- *)
+  Definition with_pgrad (e : env) (g0 : nat -> V) : env := {| e_pval := e_pval e; e_pgrad := g0; e_pos := e_pos e |}.
+  Definition apply_cs (e : env) (cs : list (nat * V)) : env :=
+    fold_left (fun e c => add_pgrad VO e (fst c) (snd c)) cs e.
+
+  Lemma apply_cs_app e cs1 cs2 : apply_cs e (cs1 ++ cs2) = apply_cs (apply_cs e cs1) cs2.
+  Proof. unfold apply_cs. apply fold_left_app. Qed.
+  Lemma apply_cs_pval cs : forall e, e_pval (apply_cs e cs) = e_pval e /\ e_pos (apply_cs e cs) = e_pos e.
+  Proof. induction cs as [|c cs IH]; intro e; simpl; auto. destruct (IH (add_pgrad VO e (fst c) (snd c))) as (A & B). rewrite A, B. auto. Qed.
+  (* the gradient of p after the contributions = the prior gradient with p's contributions added in order *)
+  Definition cs_for (p : nat) (cs : list (nat * V)) : list V := map snd (filter (fun c => Nat.eqb (fst c) p) cs).
+  Lemma apply_cs_pgrad cs : forall e p, e_pgrad (apply_cs e cs) p = fold_left (vadd VO) (cs_for p cs) (e_pgrad e p).
+  Proof.
+    induction cs as [|c cs IH]; intros e p; simpl; auto. rewrite IH. unfold cs_for. simpl. cbn [add_pgrad e_pgrad].
+    rewrite (Nat.eqb_sym (fst c) p). destruct (Nat.eqb_spec p (fst c)) as [->|N]; simpl; reflexivity.
+  Qed.
+
+  Lemma gather_args_pval args : forall (ops : ops_t) e1 e2, e_pval e1 = e_pval e2 ->
+    gather_args F VO ops e1 args = gather_args F VO ops e2 args.
+  Proof.
+    induction args as [|a args IH]; intros ops e1 e2 H; simpl; auto.
+    destruct (nth_error ops (fst a)) as [arg_f|]; auto. destruct (nth_error (o_rets arg_f) (snd a)) as [arg_n|]; auto.
+    rewrite H. destruct (match s_val arg_n with Some v => Some v | None => match f_inner F (o_op arg_f) with Some p => Some (e_pval e2 p) | None => None end end); auto.
+    rewrite (IH _ e1 e2 H). reflexivity.
+  Qed.
+
+  Lemma bstep_indep k (ops : ops_t) e1 ops' e1' c : bstep F VO k ops e1 = Some (ops', e1', c) ->
+    exists cs, e1' = apply_cs e1 cs /\
+      forall e2, e_pval e2 = e_pval e1 -> bstep F VO k ops e2 = Some (ops', apply_cs e2 cs, c).
+  Proof.
+    intro H. unfold bstep in H. destruct (nth_error ops k) as [cur|] eqn:Ecur; [|discriminate].
+    destruct (negb (enabled (o_rets cur))) eqn:Een.
+    { injection H as <- <- <-. exists []. split; [reflexivity|]. intros e2 _. unfold bstep. rewrite Ecur, Een. reflexivity. }
+    destruct (gather_args F VO (set_nth ops k (set_rets cur (map (mat_zero VO) (o_rets cur)))) e1 (o_args cur)) as [[xs ops2]|] eqn:Eg; [|discriminate].
+    destruct (nth_error ops2 k) as [cur2|] eqn:E2; [|discriminate].
+    destruct (f_inner F (o_op cur2)) as [p|] eqn:Ein.
+    - destruct (map (grad_or_zero VO) (o_rets cur2)) as [|gy rest] eqn:Egy; [discriminate|].
+      rewrite E2 in H. injection H as <- <- <-. exists [(p, gy)]. split; [reflexivity|].
+      intros e2 He. unfold bstep. rewrite Ecur, Een, (gather_args_pval _ _ e2 e1 He), Eg, E2, Ein, Egy, E2. reflexivity.
+    - destruct (all_vals (o_rets cur2)) as [ys|] eqn:Eys; [|discriminate].
+      match type of H with match nth_error ?o k with _ => _ end = _ => destruct (nth_error o k) as [cur3|] eqn:E3; [|discriminate] end.
+      injection H as <- <- <-. exists []. split; [reflexivity|].
+      intros e2 He. unfold bstep. rewrite Ecur, Een, (gather_args_pval _ _ e2 e1 He), Eg, E2, Ein, Eys, E3. reflexivity.
+  Qed.
+
+  Lemma sweep_indep k : forall (ops : ops_t) e1 bl ops' e1' bl', sweep F VO k ops e1 bl = Some (ops', e1', bl') ->
+    exists cs, e1' = apply_cs e1 cs /\
+      forall e2, e_pval e2 = e_pval e1 -> sweep F VO k ops e2 bl = Some (ops', apply_cs e2 cs, bl').
+  Proof.
+    induction k as [|k IH]; intros ops e1 bl ops' e1' bl' H; simpl in H.
+    - destruct (bstep F VO 0 ops e1) as [[[ops1 e1a] c]|] eqn:Eb; [|discriminate]. injection H as <- <- <-.
+      destruct (bstep_indep _ _ _ _ _ _ Eb) as (cs & E & Hall). exists cs. split; [exact E|].
+      intros e2 He. simpl. rewrite (Hall e2 He). reflexivity.
+    - destruct (bstep F VO (S k) ops e1) as [[[ops1 e1a] c]|] eqn:Eb; [|discriminate].
+      destruct (bstep_indep _ _ _ _ _ _ Eb) as (cs1 & E1 & Hall1).
+      destruct (IH _ _ _ _ _ _ H) as (cs2 & E2 & Hall2). exists (cs1 ++ cs2).
+      split; [rewrite apply_cs_app, <- E1; exact E2|].
+      intros e2 He. simpl. rewrite (Hall1 e2 He). rewrite apply_cs_app. apply Hall2.
+      rewrite E1. destruct (apply_cs_pval cs1 e2) as (A & _). destruct (apply_cs_pval cs1 e1) as (B & _). congruence.
+  Qed.
+
+  (* forward never reads nor writes parameter gradients *)
+  Lemma fwd_pgrad fuel : forall (g : gstate) e a g0,
+    fwd F fuel g (with_pgrad e g0) a =
+    match fwd F fuel g e a with Some (v, g', e') => Some (v, g', with_pgrad e' g0) | None => None end.
+  Proof.
+    induction fuel as [|fu IH]; intros g e a g0; [reflexivity|].
+    cbn [fwd]. fold (go_args F fu).
+    destruct (nth_error (g_ops g) (fst a)) as [cur|]; [|reflexivity].
+    destruct (f_inner F (o_op cur)); [reflexivity|].
+    destruct (nth_error (o_rets cur) (snd a)) as [cur_n|]; [|reflexivity].
+    destruct (s_val cur_n); [reflexivity|].
+    assert (Hgo : forall l g1 e1, go_args F fu l g1 (with_pgrad e1 g0) =
+              match go_args F fu l g1 e1 with Some (vs, g2, e2) => Some (vs, g2, with_pgrad e2 g0) | None => None end).
+    { induction l as [|x l IHl]; intros g1 e1; simpl; [reflexivity|]. rewrite IH.
+      destruct (fwd F fu g1 e1 x) as [[[vx g2] e2]|]; [|reflexivity]. rewrite IHl.
+      destruct (go_args F fu l g2 e2) as [[[vs g3] e3]|]; reflexivity. }
+    rewrite Hgo. destruct (go_args F fu (o_args cur) g e) as [[[vs g1] e1]|]; [|reflexivity].
+    destruct (f_rand F (o_op cur)) as [[d n]|]; cbn [with_pgrad e_pos];
+      destruct (nth_error (g_ops g1) (fst a)) as [cur1|]; try reflexivity;
+      match goal with |- context [nth_error ?o (snd a)] => destruct (nth_error o (snd a)) end; reflexivity.
+  Qed.
+
+  Lemma with_pgrad_self (e : env) : with_pgrad e (e_pgrad e) = e.
+  Proof. destruct e; reflexivity. Qed.
+
+  (* backward_only_adds: there is a list of contributions cs, independent of the prior
+     gradients, such that for EVERY prior gradient function g0 the call returns the same graph,
+     the same parameter values / streams, and gradient(p) = g0 p += each contribution for p *)
+  Theorem backward_only_adds (g : gstate) e n g' e' : backward F VO g e n = Some (g', e') ->
+    exists cs, forall g0, exists e0',
+      backward F VO g (with_pgrad e g0) n = Some (g', e0') /\
+      e_pval e0' = e_pval e' /\ e_pos e0' = e_pos e' /\
+      forall p, e_pgrad e0' p = fold_left (vadd VO) (cs_for p cs) (g0 p).
+  Proof.
+    unfold backward. destruct (get_slot g n) as [last_n|]; [|discriminate].
+    intro H.
+    assert (Hpre : exists g1 e1, (match s_val last_n with Some _ => Some (g, e) | None =>
+                     match forward F g e n with Some (_, g1, e1) => Some (g1, e1) | None => None end end) = Some (g1, e1) /\
+                   forall g0, (match s_val last_n with Some _ => Some (g, with_pgrad e g0) | None =>
+                     match forward F g (with_pgrad e g0) n with Some (_, g1, e1) => Some (g1, e1) | None => None end end) = Some (g1, with_pgrad e1 g0)).
+    { destruct (s_val last_n).
+      - exists g, e. split; [reflexivity|]. intro g0. reflexivity.
+      - unfold forward in *. destruct (get_slot g n); [|discriminate].
+        destruct (fwd F (S (fst n)) g e n) as [[[v g1] e1]|] eqn:Ef; [|discriminate].
+        exists g1, e1. split; [reflexivity|]. intro g0. rewrite fwd_pgrad, Ef. reflexivity. }
+    destruct Hpre as (g1 & e1 & Hp1 & Hp2). rewrite Hp1 in H.
+    destruct (sweep F VO (fst n) (upd_ops (g_ops g1) n (fun s => set_grad s (Some (vones VO (s_shape s))))) e1 (g_blog g1)) as [[[ops' e1'] bl']|] eqn:Es; [|discriminate].
+    injection H as <- <-. destruct (sweep_indep _ _ _ _ _ _ _ Es) as (cs & Ecs & Hall).
+    exists cs. intro g0. exists (apply_cs (with_pgrad e1 g0) cs). rewrite Hp2. rewrite (Hall (with_pgrad e1 g0) eq_refl).
+    split; [reflexivity|]. rewrite Ecs.
+    destruct (apply_cs_pval cs (with_pgrad e1 g0)) as (A & B). destruct (apply_cs_pval cs e1) as (A' & B').
+    split; [rewrite A, A'; reflexivity|]. split; [rewrite B, B'; reflexivity|].
+    intro p. rewrite apply_cs_pgrad. reflexivity.
+  Qed.
 End BackwardProofs.
